@@ -8,7 +8,7 @@
    [run (init c t0) ops] is the list of their results, [final (init c t0) ops] the
    state afterwards; [capacity s now] is the code's maxFlight() evaluated at [now]. *)
 From Coq Require Import List ZArith QArith Bool.
-From GZ Require Import Lib.RollingWindow Lib.RollingWindowSpec C02.Model C02.Conc C02.Proofs C02.ProofsConc.
+From GZ Require Import Lib.RollingWindow Lib.RollingWindowSpec C02.Model C02.Conc C02.Proofs C02.ProofsConc C02.ProofsConcHot.
 Import ListNotations.
 Open Scope Z_scope.
 
@@ -45,7 +45,7 @@ Theorem shed_when_saturated : forall c t0 pre now cpu1 cpu2,
   snd (step (final (init c t0) pre) (OAllow now cpu1 cpu2)) = RShed.
 Proof. exact shed_when_saturated_core. Qed.
 
-(* 3. In-flight conservation: after every history, flying = #admitted - #resolutions;
+(* 3. In-flight conservation: after every history, flying = #granted - #resolutions;
       when every promise is resolved at most once, only handed-out promises are
       resolved, flying is the number of open promises and is never negative. *)
 Theorem flying_conservation : forall c t0 ops,
@@ -57,9 +57,9 @@ Proof. intros c t0 ops H. rewrite (conservation_core ops (init c t0) H). reflexi
 Theorem flying_conservation_wf : forall c t0 ops,
   cenabled c = true ->
   NoDup (resolved ops (run (init c t0) ops)) ->
-  incl (resolved ops (run (init c t0) ops)) (admitted 0 (run (init c t0) ops)) /\
+  incl (resolved ops (run (init c t0) ops)) (granted 0 (run (init c t0) ops)) /\
   flying (final (init c t0) ops) =
-    Z.of_nat (length (admitted 0 (run (init c t0) ops))) -
+    Z.of_nat (length (granted 0 (run (init c t0) ops))) -
     Z.of_nat (length (resolved ops (run (init c t0) ops))) /\
   0 <= flying (final (init c t0) ops).
 Proof. exact conservation_wf_core. Qed.
@@ -71,7 +71,7 @@ Proof. exact conservation_wf_core. Qed.
       resolver per promise it is never negative. *)
 Theorem flying_conservation_interleaved : forall c t0 calls sched,
   flying (fst (crun (start c t0 calls) sched)) =
-  countb is_admitted (snd (crun (start c t0 calls) sched)) -
+  countb is_granted (snd (crun (start c t0 calls) sched)) -
   countb has_decremented (snd (crun (start c t0 calls) sched)).
 Proof. exact conc_conservation_core. Qed.
 
@@ -80,22 +80,26 @@ Theorem flying_nonneg_interleaved : forall c t0 calls sched,
   0 <= flying (fst (crun (start c t0 calls) sched)).
 Proof. exact conc_nonneg_core. Qed.
 
-(* 1'. Theorem 1 for concurrent calls, PARTIAL: an Allow thread that returns
-      ErrServiceOverloaded after any schedule read an in-flight count [tfl] and an
-      average [tavg] above 10% of the capacity computed from the maxPass / minRt it read
-      ([reg_capacity]); each of these was the value of the shared state at the thread's
-      own read action and may be stale at the time of the verdict.
-      Full statement (not proved for interleavings): additionally, cpu1 >= threshold, or
-      some thread had been shed before this thread's droppedRecently read and some Allow
-      thread with cpu >= threshold stored an overloadTime less than coolOffDuration
-      before this thread's [now].  Missing: the invariant tying the registers [tot] and
-      the droppedRecently read to other threads' completed actions. *)
-Theorem shed_only_if_loaded_interleaved_partial : forall c t0 calls sched i t now cpu1 cpu2,
+(* 1'. Theorem 1 for concurrent calls: for every set of calls and every schedule, an
+      Allow thread that returns ErrServiceOverloaded
+      - read a CPU value at or above the threshold, or some Allow thread has (already)
+        returned ErrServiceOverloaded and some Allow thread whose CPU reading was at or
+        above the threshold has executed its overloadTime.Set with a clock reading [tj]
+        less than coolOffDuration before this thread's clock reading; and
+      - read an in-flight count [tfl] and an average [tavg] above 10% of the capacity
+        computed from the maxPass / minRt it read ([reg_capacity]).
+      Each value was the value of the shared state at the thread's own read action and
+      may be stale at the time of the verdict. *)
+Theorem shed_only_if_hot_and_loaded_interleaved : forall c t0 calls sched i t now cpu1 cpu2,
   nth_error (snd (crun (start c t0 calls) sched)) i = Some t ->
   tcall t = CAllow now cpu1 cpu2 -> tres t = Some RShed ->
+  (cthreshold c <= cpu1 \/
+   (shed_thread (snd (crun (start c t0 calls) sched)) /\
+    exists tj, over_thread (cthreshold c) (snd (crun (start c t0 calls) sched)) tj /\
+               now - tj < coolOffDuration)) /\
   (overloadFactorLowerBound * reg_capacity (window_scale c) t < inject_Z (tfl t))%Q /\
   (overloadFactorLowerBound * reg_capacity (window_scale c) t < tavg t)%Q.
-Proof. exact conc_shed_only_loaded_core. Qed.
+Proof. exact conc_shed_only_core. Qed.
 
 (* 4. With nothing in flight no request is shed (capacity >= 1). *)
 Theorem idle_never_sheds : forall c t0 pre now cpu1 cpu2,
@@ -157,7 +161,7 @@ Print Assumptions shed_when_saturated.
 Print Assumptions flying_conservation_wf.
 Print Assumptions flying_nonneg_interleaved.
 Print Assumptions capacity_def.
-Print Assumptions shed_only_if_loaded_interleaved_partial.
+Print Assumptions shed_only_if_hot_and_loaded_interleaved.
 
 (* ------------------------------------------------------------------ *)
 (* The hypotheses are satisfiable by concrete, non-trivial histories.    *)
@@ -166,7 +170,7 @@ Definition B : Z := 1000000000000.
 Definition ms : Z := 1000000.
 Definition cfg1 : config := default_config.   (* 5 s window, 50 buckets, threshold 900 *)
 
-(* 20 requests admitted at B, 10 of them pass after 5 ms; 150 ms later the CPU is at 950 *)
+(* 20 requests granted at B, 10 of them pass after 5 ms; 150 ms later the CPU is at 950 *)
 Definition hist1 : list op :=
   repeat (OAllow B 0 0) 20 ++ map (fun i => OPass i (B + 5 * ms)) [0;1;2;3;4;5;6;7;8;9].
 
@@ -184,14 +188,14 @@ Example ex_saturated : let s := final (init cfg1 B) hist1 in
 Proof. vm_compute. repeat split; try reflexivity; discriminate. Qed.
 
 (* shed while cooling off: CPU back to 0 half a second later, still shed (right disjunct of theorem 1);
-   after the full second it is admitted *)
+   after the full second it is granted *)
 Example ex_cooling_off :
   run (init cfg1 B) (hist1 ++ [OAllow (B + 150 * ms) 950 950; OAllow (B + 650 * ms) 0 0;
                                OAllow (B + 1149 * ms) 0 0; OAllow (B + 1150 * ms) 0 0])
   = repeat RAdmit 20 ++ repeat RDone 10 ++ [RShed; RShed; RShed; RAdmit].
 Proof. vm_compute. reflexivity. Qed.
 
-(* overloaded but not loaded: admitted (the lower-bound conjunct matters) *)
+(* overloaded but not loaded: granted (the lower-bound conjunct matters) *)
 Example ex_overloaded_idle :
   run (init cfg1 B) [OAllow B 1000 1000; OFail 0; OAllow (B + 1) 1000 1000]
   = [RAdmit; RDone; RAdmit].
@@ -199,7 +203,7 @@ Proof. vm_compute. reflexivity. Qed.
 
 (* well-formedness of theorem 3 is met by hist1, and flying counts the open promises *)
 Example ex_wf : NoDup (resolved hist1 (run (init cfg1 B) hist1)) /\
-  length (admitted 0 (run (init cfg1 B) hist1)) = 20%nat /\
+  length (granted 0 (run (init cfg1 B) hist1)) = 20%nat /\
   length (resolved hist1 (run (init cfg1 B) hist1)) = 10%nat.
 Proof.
   vm_compute. split; [|split; reflexivity].
@@ -227,7 +231,7 @@ Example ex_conc_sequential :
 Proof. vm_compute. repeat split; reflexivity. Qed.
 
 (* an interleaving in which a stale read matters: both Allows read flying = 0 before
-   either increments; both are admitted; conservation holds all the same *)
+   either increments; both are granted; conservation holds all the same *)
 Example ex_conc_interleaved :
   let calls := [CAllow B 1000 1000; CAllow B 1000 1000; CFail 0; CFail 1] in
   let sched := [0;1;0;1;0;1;0;1;0;1;0;1;2;3;3;2;2;3]%nat in
